@@ -444,11 +444,14 @@ def main(argv=None):
         for r in errors:
             if r is not None:
                 print(f"ERROR {r.contract}: {r.reason}")
-        return 3
     if vio_lines:
+        # a violation (failed obligation with the failing input replayed on the real code) stands whatever else happened:
+        # an engine error on another contract of the same run does not hide it
         for l in vio_lines:
             print(l)
         return 1
+    if errors:
+        return 3
     if undecided_names:
         for u in undecided_names:
             print("UNDECIDED", u)
